@@ -109,7 +109,19 @@ class MarginLoans(base.LendingStrategy):
 
     def create_loan(self, symbol: str, amount: Decimal, created_at: datetime.datetime) -> base.Loan:
         conditions = self.get_conditions(symbol)
+        self._check_equity_left(symbol, amount)
         return MarginLoan(uuid.uuid4().hex, symbol, amount, created_at, conditions)
+
+    def _check_equity_left(self, symbol: str, amount: Decimal):
+        # A margin level of 0 means that nothing was borrowed, but it is also what we get when there is no equity at
+        # all. CheckMarginLevel can't tell those apart, so that case is checked here before granting a new loan.
+        assert self._exchange_ctx, "Not yet connected with the exchange"
+        acc_balances = self._exchange_ctx.account_balances
+        updated_balances = acc_balances.balances + {symbol: amount}
+        updated_borrowed = acc_balances.borrowed + {symbol: amount}
+        margin_level = self._calculate_margin_level(updated_balances, acc_balances.holds, updated_borrowed)
+        if margin_level == Decimal(0) and self._calculate_used_margin(updated_borrowed) > Decimal(0):
+            raise errors.NotEnoughBalance(f"Margin level too low {margin_level}")
 
     @property
     def margin_level(self) -> Decimal:
@@ -122,17 +134,22 @@ class MarginLoans(base.LendingStrategy):
             acc_balances.balances, acc_balances.holds, acc_balances.borrowed
         )
 
+    def _calculate_used_margin(self, updated_borrowed: ValueMapDict) -> Decimal:
+        assert self._exchange_ctx, "Not yet connected with the exchange"
+
+        margin_requirements = ValueMap(
+            {symbol: self.get_conditions(symbol).margin_requirement for symbol in updated_borrowed}
+        )
+        used_margin_by_symbol = margin_requirements * updated_borrowed
+        return self._exchange_ctx.prices.convert_value_map(used_margin_by_symbol, self._quote_symbol)
+
     def _calculate_margin_level(
             self, updated_balances: ValueMapDict, updated_holds: ValueMapDict, updated_borrowed: ValueMapDict
     ) -> Decimal:
         assert self._exchange_ctx and self._loan_mgr, "Not yet connected with the exchange"
 
         # Calculate used margin.
-        margin_requirements = ValueMap(
-            {symbol: self.get_conditions(symbol).margin_requirement for symbol in updated_borrowed}
-        )
-        used_margin_by_symbol = margin_requirements * updated_borrowed
-        used_margin = self._exchange_ctx.prices.convert_value_map(used_margin_by_symbol, self._quote_symbol)
+        used_margin = self._calculate_used_margin(updated_borrowed)
         if used_margin == Decimal(0):
             return Decimal(0)
 
